@@ -61,6 +61,11 @@ def positive_test(t: ast.expr) -> Optional[ast.expr]:
         flip = {ast.NotIn: ast.In, ast.IsNot: ast.Is, ast.NotEq: ast.Eq}.get(type(t.ops[0]))
         if flip is not None:
             return ast.copy_location(ast.Compare(left=t.left, ops=[flip()], comparators=t.comparators), t)
+    if isinstance(t, ast.BoolOp):
+        # `not a or not b` is the negation of `a and b` (the form De Morgan's rule leaves behind)
+        pos = [positive_test(v) for v in t.values]
+        if all(p is not None for p in pos):
+            return ast.copy_location(ast.BoolOp(op=ast.And() if isinstance(t.op, ast.Or) else ast.Or(), values=pos), t)
     return None
 
 
@@ -114,8 +119,12 @@ class ExprCanon(ast.NodeTransformer):
         self.generic_visit(node)
         if isinstance(node.op, ast.Not) and isinstance(node.operand, ast.Compare) and len(node.operand.ops) == 1 and type(node.operand.ops[0]) in (ast.Is, ast.IsNot, ast.In, ast.NotIn, ast.Eq, ast.NotEq):
             return negate(node.operand)
-        if isinstance(node.op, ast.Not) and isinstance(node.operand, ast.UnaryOp) and isinstance(node.operand.op, ast.Not) and False:
-            return node.operand.operand
+        # De Morgan: negations are pushed inwards (`not (a and b)` -> `not a or not b`); evaluation order and short-circuiting are the same
+        if isinstance(node.op, ast.Not) and isinstance(node.operand, ast.BoolOp):
+            inner = node.operand
+            flipped = ast.Or() if isinstance(inner.op, ast.And) else ast.And()
+            return ast.copy_location(ast.BoolOp(op=flipped, values=[self.visit(negate(v)) if isinstance(negate(v), ast.UnaryOp) and isinstance(negate(v).operand, ast.BoolOp) else negate(v)
+                                                                    for v in inner.values]), node)
         return node
 
     def visit_IfExp(self, node):
@@ -174,11 +183,16 @@ class ExprCanon(ast.NodeTransformer):
         if isinstance(f, ast.Name) and f.id not in self.bound and len(node.args) == 1 and not node.keywords and (
                 (f.id == "dict" and isinstance(node.args[0], ast.Dict)) or (f.id == "list" and isinstance(node.args[0], ast.List)) or (f.id == "set" and isinstance(node.args[0], ast.Set))):
             return node.args[0]
+        # str.lower(x) -> x.lower()   (unbound method of str applied to its receiver)
+        if isinstance(f, ast.Attribute) and isinstance(f.value, ast.Name) and f.value.id == "str" and "str" not in self.bound and node.args and not isinstance(node.args[0], ast.Starred) \
+                and f.attr in ("lower", "upper", "strip", "lstrip", "rstrip", "title", "capitalize", "casefold", "split", "startswith", "endswith", "replace", "join", "format", "isidentifier"):
+            return ast.copy_location(ast.Call(func=ast.Attribute(value=node.args[0], attr=f.attr, ctx=ast.Load()), args=node.args[1:], keywords=node.keywords), node)
         # map(f, xs) -> (f(_m) for _m in xs)   (one iterable, f a plain function reference)
         if isinstance(f, ast.Name) and f.id == "map" and "map" not in self.bound and len(node.args) == 2 and not node.keywords and isinstance(node.args[0], (ast.Name, ast.Attribute)) \
                 and not isinstance(node.args[1], ast.Starred):
             call = self.visit(ast.Call(func=node.args[0], args=[ast.Name(id="_m", ctx=ast.Load())], keywords=[]))
-            return ast.copy_location(ast.GeneratorExp(elt=call, generators=[ast.comprehension(target=ast.Name(id="_m", ctx=ast.Store()), iter=node.args[1], ifs=[], is_async=0)]), node)
+            gen = ast.GeneratorExp(elt=call, generators=[ast.comprehension(target=ast.Name(id="_m", ctx=ast.Store()), iter=node.args[1], ifs=[], is_async=0)])
+            return ast.copy_location(self._alpha_comp(gen, getattr(self, "_cdepth", 0)), node)
         # graphql-core: build_schema(src, ...) is build_ast_schema(parse(src), ...) (library source checked once)
         if isinstance(f, ast.Name) and f.id == "build_schema" and "build_schema" not in self.bound and len(node.args) == 1 and not isinstance(node.args[0], ast.Starred) \
                 and all(k.arg in ("assume_valid", "assume_valid_sdl") for k in node.keywords) and _lib_build_schema_is_parse_then_build():
@@ -227,6 +241,13 @@ class ExprCanon(ast.NodeTransformer):
 
     def visit_Compare(self, node):
         self.generic_visit(node)
+        # CONST == x -> x == CONST   (equality is symmetric for the values compared here: strings, numbers, None, enum members)
+        if len(node.ops) == 1 and isinstance(node.ops[0], (ast.Eq, ast.NotEq)):
+            l, r = node.left, node.comparators[0]
+            def _k(e):
+                return isinstance(e, ast.Constant) or (isinstance(e, ast.Name) and e.id.isupper()) or (isinstance(e, ast.Attribute) and e.attr.isupper())
+            if _k(l) and not _k(r):
+                node.left, node.comparators = r, [l]
         if len(node.ops) == 1 and isinstance(node.ops[0], (ast.In, ast.NotIn)) and _is_keys_call(node.comparators[0]):
             node.comparators[0] = node.comparators[0].func.value
         return node
@@ -244,7 +265,7 @@ class ExprCanon(ast.NodeTransformer):
                     elif isinstance(p, ast.JoinedStr):
                         vals.extend(p.values)
                     else:
-                        vals.append(ast.FormattedValue(value=p, conversion=-1, format_spec=None))
+                        vals.append(self.visit_FormattedValue(ast.FormattedValue(value=p, conversion=-1, format_spec=None)))
                 merged = []
                 for v in vals:
                     if isinstance(v, ast.Constant) and merged and isinstance(merged[-1], ast.Constant):
@@ -256,6 +277,17 @@ class ExprCanon(ast.NodeTransformer):
 
     def visit_keyword(self, node):
         self.generic_visit(node)
+        return node
+
+    def visit_FormattedValue(self, node):
+        self.generic_visit(node)
+        # f"{str(x)}" / f"{x!s}" -> f"{x}"   (format(x, "") is str(x) for everything that does not override __format__)
+        if node.format_spec is None and node.conversion in (-1, 115):
+            v = node.value
+            if isinstance(v, ast.Call) and isinstance(v.func, ast.Name) and v.func.id == "str" and "str" not in self.bound and len(v.args) == 1 and not v.keywords and not isinstance(v.args[0], ast.Starred):
+                node.value = v.args[0]
+            if node.conversion == 115:
+                node.conversion = -1
         return node
 
     def visit_Attribute(self, node):
@@ -279,7 +311,47 @@ class ExprCanon(ast.NodeTransformer):
 
     def _comp(self, node):
         names = [n.id for g in node.generators for n in ast.walk(g.target) if isinstance(n, ast.Name)]
-        return self._with_bound(names, lambda: self.generic_visit(node))
+        self._cdepth = getattr(self, "_cdepth", 0) + 1
+        try:
+            node = self._with_bound(names, lambda: self.generic_visit(node))
+        finally:
+            self._cdepth -= 1
+        return self._alpha_comp(node, self._cdepth)
+
+    @staticmethod
+    def _alpha_comp(node, depth):
+        """the variables a comprehension binds are written _c<depth>x<k> (k-th bound name): comprehensions that differ only in
+        the spelling of their loop variables have one text"""
+        ren: Dict[str, str] = {}
+        for g in node.generators:
+            for n in ast.walk(g.target):
+                if isinstance(n, ast.Name) and n.id not in ren:
+                    ren[n.id] = f"_c{depth}x{len(ren)}"
+        if not ren or all(k == v for k, v in ren.items()):
+            return node
+
+        class R(ast.NodeTransformer):
+            def visit_Name(self, n):
+                return ast.copy_location(ast.Name(id=ren[n.id], ctx=n.ctx), n) if n.id in ren else n
+
+            def visit_Lambda(self, n):
+                a = n.args
+                own = {x.arg for x in a.posonlyargs + a.args + a.kwonlyargs} | ({a.vararg.arg} if a.vararg else set()) | ({a.kwarg.arg} if a.kwarg else set())
+                if own & set(ren):
+                    return n
+                return self.generic_visit(n)
+        r = R()
+        first_iter = node.generators[0].iter       # evaluated in the enclosing scope
+        for fld in ("elt", "key", "value"):
+            if hasattr(node, fld):
+                setattr(node, fld, r.visit(getattr(node, fld)))
+        for i, g in enumerate(node.generators):
+            g.target = r.visit(g.target)
+            if i > 0:
+                g.iter = r.visit(g.iter)
+            g.ifs = [r.visit(c) for c in g.ifs]
+        node.generators[0].iter = first_iter
+        return node
 
     visit_ListComp = visit_SetComp = visit_GeneratorExp = visit_DictComp = _comp
 
@@ -366,7 +438,7 @@ def canon_text(text: str) -> str:
     if not isinstance(text, str) or not text:
         return text
     consts = pinned()["consts"]
-    if not any(k in text for k in consts) and not any(tok in text for tok in (" if ", ".union(", ".difference(", ".intersection(", ".keys()", "isinstance(", " + ", "set(", "list(", "frozenset(", "dict(", "[", "not ")) and "(" not in text:
+    if not any(k in text for k in consts) and not any(tok in text for tok in (" if ", ".union(", ".difference(", ".intersection(", ".keys()", "isinstance(", " + ", "set(", "list(", "frozenset(", "dict(", "[", "not ", "!s}", " for ", " == ", " != ")) and "(" not in text:
         return text
     # pseudo calls of the interpreter (<elem>(it), <pre>(e, n, k), <setitem>(d, k, v), <setattr>(o, a, v)) are not Python:
     # they are spelled as identifiers while the text is parsed and restored afterwards
